@@ -306,3 +306,38 @@ func (p *Prog) unboundContracts() []string {
 	sort.Strings(out)
 	return out
 }
+
+// theoremUnits turns every theorem (a closed statement over spec functions, proved from the instantiated
+// library lemmas) into a unit with a single obligation.
+func (p *Prog) theoremUnits() []*Unit {
+	var out []*Unit
+	for _, th := range p.cs.Theorems {
+		u := p.newUnit(nil)
+		func() {
+			defer func() {
+				if r := recover(); r != nil {
+					if a, ok := r.(abortUnit); ok {
+						u.unsupported = a.why
+						return
+					}
+					panic(r)
+				}
+			}()
+			names := map[string]Term{}
+			for _, v := range th.Vars {
+				t := u.fresh("th."+v[0], v[1])
+				names[v[0]] = t
+			}
+			env := &Env{u: u, s: newState(), names: names}
+			g, err := env.formula(th.Body)
+			if err != nil {
+				panic(abortUnit{fmt.Sprintf("%s:%d: %v", th.File, th.Line, err)})
+			}
+			o := &Oblig{Name: th.Label, Props: th.Props, Kind: "theorem", Goal: g, Unit: u}
+			u.obligs = append(u.obligs, o)
+			u.thName = th.Label
+		}()
+		out = append(out, u)
+	}
+	return out
+}
